@@ -31,6 +31,7 @@ type WalkEv struct {
 // TreeRec is the trace record of one accepted tree.
 type TreeRec struct {
 	ID    int       `json:"id"`
+	Base  int       `json:"base"` // base of the file in its file set (1 when parsed stand-alone)
 	Len   int       `json:"len"`
 	Nodes []NodeRec `json:"nodes"`
 	Walk  []WalkEv  `json:"walk"`
@@ -251,10 +252,10 @@ func (l logVisitor) Enter(n ast.Node) ast.Visitor {
 func (l logVisitor) Exit(n ast.Node) { *l.ev = append(*l.ev, WalkEv{E: 2, N: l.num(n)}) }
 
 // Record builds the trace record of an accepted program.
-func Record(id int, src string, p *ast.Program) (rec TreeRec) {
+func Record(id int, src string, p *ast.Program, base int) (rec TreeRec) {
 	e := &enum{index: map[ast.Node]int{}}
 	e.visit(p, 0)
-	rec = TreeRec{ID: id, Len: len(src), Nodes: e.nodes, Src: src}
+	rec = TreeRec{ID: id, Base: base, Len: len(src), Nodes: e.nodes, Src: src}
 	evs := []WalkEv{}
 	func() {
 		defer func() {
